@@ -7,6 +7,7 @@
 #endif
 
 #include <algorithm>
+#include <atomic>
 #include <cerrno>
 #include <iostream>
 #include <memory>
@@ -353,7 +354,9 @@ template <class T> class UnboundedSingleQueue {
 
     std::unique_ptr<UnboundedPage<T> > reading_;
 
-    T *filling_current_;
+    // Written by the producer, also read by the consumer in Empty(): atomic so
+    // that the concurrent read is not a data race.
+    std::atomic<T*> filling_current_;
     T *filling_end_;
     T *reading_current_;
     T *reading_end_;
